@@ -43,6 +43,12 @@ OPS = [
     (r"\bInBetweenSections\b", "ReadingSection"), (r"\bReadingSection\b", "InBetweenSections"),
     (r"!self\.", "self."), (r"!(?=[a-z_]+\.)", ""),
     (r"\bstop\b", "start"), (r"(?<![_.\w])start(?![_\w(])", "stop"),
+    # second set: off-by-one on values read from records and coordinates, negated conditions, dropped statements and adaptors
+    (r"\.get\(\)(?=;)", ".get() + 1"), (r"\.get\(\)(?=;)", ".get().saturating_sub(1)"),
+    (r"chunk\.size\(\)", "(chunk.size() + 1)"), (r"chunk\.size\(\)", "chunk.size().saturating_sub(1)"),
+    (r"\bif (?!let)([^{]+) \{$", None), (r"^\s*[a-z_.]+(\.[a-z_]+)*\([^;]*\);$", ""), (r"^\s*self\.[a-z_]+ [+-]?= [^;]+;$", ""),
+    (r"^\s*\.filter\(.*\)$", ""), (r"\.clamp\(interval\.clone\(\)\)", ".clamp(interval.clone().reverse_complement())"),
+    (r"Some\(c\) => c,", "Some(c) if c.size() > 0 => c, Some(c) => c,"),
 ]
 
 
@@ -93,8 +99,13 @@ def gen(wt, outdir):
                     # not inside a string literal
                     if code[:m.start()].count('"') % 2 == 1:
                         continue
-                    new = l[:m.start()] + repl + l[m.end():]
-                    cands.append((f, i, l, new, "%s -> %s" % (m.group(0), repl)))
+                    if repl is None:   # negate the condition of an `if`
+                        new = l[:m.start()] + "if !(" + m.group(1) + ") {" + l[m.end():]
+                    else:
+                        new = l[:m.start()] + repl + l[m.end():]
+                    if new == l:
+                        continue
+                    cands.append((f, i, l, new, "%s -> %s" % (m.group(0).strip()[:40], repl if repl is not None else "negated")))
     print(len(cands), "candidate mutants", flush=True)
     sh("git checkout -q -- .", cwd=wt)
     kept = []
@@ -108,7 +119,7 @@ def gen(wt, outdir):
         ok = "test result: ok" in r.stdout
         if ok:
             d = sh("git diff -- src", cwd=wt).stdout
-            name = "m%04d" % n
+            name = "m%04d" % (n + int(os.environ.get("MUT_OFFSET", "0")))
             open(os.path.join(outdir, name + ".diff"), "w").write(d)
             idx[name] = {"file": os.path.relpath(f, wt), "line": i + 1, "what": what, "old": old.strip(), "new": new.strip()}
             kept.append(name)
